@@ -417,7 +417,72 @@ def r3_mod_tsc(L, repo):
     else:
         L.require("C10.R3", F, fn, "modulation follows the length of the transmitted burst",
                   [([], pick)], [(lit_fmt(guard_literals(cfg, cfg.node_of(n), subst)), canon(n.value, subst)) for n in mods])
-    # the training sequence found in the transmitted burst
+    # the training sequence found in the transmitted burst: decided by folding the whole method on witness bursts; the
+    # decision table below is the proof attempt for every burst
+    if _v1_fold(L, repo, h1, SMSG, MSG):
+        L.structural("C10.R3 decision table of the TSC / TSC set stores in _handle_data_msg_v1", _v1_table, L, repo, h1, SMSG, MSG, cfg)
+    else:
+        _v1_table(L, repo, h1, SMSG, MSG, cfg)
+    _v1_rest(L, repo)
+
+
+def _v1_fold(L, repo, h1, SMSG, MSG):
+    """FakeTRX._handle_data_msg_v1(source message, forwarded message) folded on witness bursts: 148 bits without any training
+    sequence, with a normal / sync / access burst sequence in place, 444 bits without and WITH the bit pattern of a GMSK
+    sequence in them, 296 bits.  Required: modulation by length, TSC / TSC set of the sequence present in a GMSK burst
+    (0 / 0 when none is, and for every other modulation), and no exception.  -> False when the method does not fold"""
+    from consteval import Opaque
+    fn = "FakeTRX._handle_data_msg_v1"
+    ci = repo.need_class("fake_trx", "FakeTRX")
+    gs = repo.mod("gsm_shared")
+    tci = repo.need_class("gsm_shared", "TrainingSeqGMSK")
+    with open(os.path.join(VERIF, "spec", "training_seq.json")) as f:
+        ref = json.load(f)
+    members = Ev(repo, gs).enum_members(tci)
+    mci_ = repo.need_class("data_msg", "Modulation")
+    first = {}
+    for m_ in Ev(repo, ci.mod, self_cls=ci).enum_members(mci_):
+        first.setdefault(m_.attrs.get("bl"), m_.name)
+
+    def place(burst, m):
+        o = ref["offsets"][m.value[1].name]
+        for i, ch in enumerate(m.value[2]):
+            burst[o["start"] + i] = int(ch)
+        return burst
+    by_bt = {}
+    for m in members:
+        if m.value[0] != 0:
+            by_bt.setdefault(m.value[1].name, m)
+    wit = [("148 bits, no training sequence", bytearray(148), (0, 0))]
+    for bt, m in sorted(by_bt.items()):
+        wit.append(("148 bits carrying %s" % m.name, place(bytearray(148), m), (m.value[0], m.attrs.get("tsc_set", 0))))
+    wit.append(("444 bits, no training sequence", bytearray(444), (0, 0)))
+    for bt, m in sorted(by_bt.items())[:2]:
+        wit.append(("444 bits with the bit pattern of %s in them" % m.name, place(bytearray(444), m), (0, 0)))
+    wit.append(("296 bits", bytearray(296), (0, 0)))
+    rows = []
+    try:
+        for title, burst, (tsc, tset) in wit:
+            src = {"burst": burst, "ver": 1}
+            msg = {"ci": None, "mod_type": None, "tsc": None, "tsc_set": None, "ver": 1, "burst": None, "nope_ind": False}
+            e = Ev(repo, ci.mod, env={SMSG: src, MSG: msg, "self.ci": 55}, self_cls=ci)
+            e.ignore_calls = ("log.", "logging.")
+            try:
+                e.run_block(h1.body)
+                got = (getattr(msg["mod_type"], "name", msg["mod_type"]), msg["tsc"], msg["tsc_set"])
+            except Raised as ex:
+                got = "raises %s" % ex.cls
+            rows.append((title, (first.get(len(burst)), tsc, tset), got))
+    except Unknown:
+        return False
+    for title, want, got in rows:
+        L.require("C10.R3", F, fn, "burst of %s forwarded on a version-1 link: (modulation, TSC, TSC set)" % title, want, got, line=h1.lineno)
+    L.floor("C10.R3", "version-1 witness bursts folded", len(rows), 7)
+    return True
+
+
+def _v1_table(L, repo, h1, SMSG, MSG, cfg):
+    fn = "FakeTRX._handle_data_msg_v1"
     SS = None
     for n in ast.walk(h1):
         if isinstance(n, ast.Assign) and isinstance(n.targets[0], ast.Name) and \
@@ -452,6 +517,10 @@ def r3_mod_tsc(L, repo):
         extra = "".join(" %s=%d" % (u[:40], a[u]) for u in unknown)
         L.ob("C10.R3", F, fn, "TSC / TSC set are those of the training sequence found in a GMSK burst, 0 if none or another modulation [GMSK=%d, none found=%d%s]" % (
             a[A_G], a[A_N], extra), want, got, ok, h1.lineno)
+
+
+def _v1_rest(L, repo):
+    ci = repo.need_class("fake_trx", "FakeTRX")
     # call site: only for version >= 1, with (source message, forwarded message)
     c, hd = repo.need_method("fake_trx", "FakeTRX", "handle_data_msg")
     ps = params(hd)
